@@ -25,13 +25,19 @@ subprocess.run("git -C /repo archive HEAD | tar -x -C %s" % SCR, shell=True, che
 shutil.copy("/repo/Cargo.lock", SCR)
 os.environ["VERIF_REPO"] = SCR
 import gen, verus
+# the units, preludes and specs are read from a snapshot taken now, so that /verif can be edited while a campaign runs
+SNAP = os.path.join(SCR, "verif-snapshot")
+for d in ("units", "prelude", "specs"):
+    shutil.copytree(os.path.join("/verif", d), os.path.join(SNAP, d))
+gen.VERIF = SNAP
+UNITS = os.path.join(SNAP, "units")
 
 ext = json.loads(subprocess.run([gen.EXTRACT_BIN, os.path.join(SCR, relfile)], capture_output=True, text=True).stdout)[0]
 orig = open(os.path.join(SCR, relfile), "rb").read()
 # only functions the unit(s) actually have under contract (verified bodies; R-EXT and view-only functions are not)
 under = set()
 for u in units:
-    g0, _t0 = gen.generate("/verif/units/%s.vrs" % u)
+    g0, _t0 = gen.generate(os.path.join(UNITS, "%s.vrs" % u))
     ext_sites = set(x["what"] for x in g0.trusted if x.get("kind") == "R-EXT")
     for site in g0.functions:
         if site.startswith(relfile + "::") and site not in ext_sites:
@@ -83,7 +89,7 @@ subprocess.run("cargo check -q -p %s --offline" % crate, shell=True, cwd=SCR, en
 def run_units():
     out = {}
     for u in units:
-        g, t = gen.generate("/verif/units/%s.vrs" % u)
+        g, t = gen.generate(os.path.join(UNITS, "%s.vrs" % u))
         p = os.path.join(SCR, "%s.rs" % u)
         open(p, "w").write(t)
         r = verus.run_verus(p)
